@@ -303,7 +303,11 @@ func c09ChildPrograms(kind string, quick bool) []c09ChildProg {
 		wrap := func(open, close string, k int) string {
 			return "func f(n) { " + strings.Repeat(open, k) + "f(n + 1)" + strings.Repeat(close, k) + " }; f(0)"
 		}
-		for _, md := range []int{0, 100, 1000, 10000, 100000, 1 << 30} {
+		mds := []int{0, 100, 1000, 10000, 100000, 1 << 30}
+		if quick {
+			mds = []int{0, 1000, 1 << 30}
+		}
+		for _, md := range mds {
 			md := md
 			for _, k := range []int{30, 3000} {
 				k := k
